@@ -21,6 +21,16 @@ SPECDIR = SPECS / "remap"
 PY = {"dict": dict, "list": list, "tuple": tuple, "set": set, "frozenset": frozenset}
 
 
+# the specification's dict keys are integers; key 8 stands for None on the Python side (a key that is also the
+# marker remap uses for "the root has no key")
+def DKEY(k):
+    return None if k == 8 else k
+
+
+def IKEY(x):
+    return 8 if x is None else x
+
+
 def build(heap):
     """Materialise a node table as real objects (tuples/frozensets are created once their items exist;
     cycles only pass through list/dict, which exist before their items). Returns {node: object}."""
@@ -43,7 +53,7 @@ def build(heap):
         for it in nd["items"]:
             v = it["v"] if it["s"] else objs[it["v"]]
             if nd["kind"] == "dict":
-                o[it["k"]] = v
+                o[DKEY(it["k"])] = v
             elif nd["kind"] == "list":
                 o.append(v)
             elif nd["kind"] == "set":
@@ -124,7 +134,7 @@ def run_remap(prog, heap, objs, wrap=False):
             pk = cur[-1]
             if prog == 2:
                 return not ((pk is dict and key == 7) or (pk in (list, tuple) and key == 0))
-            return (key + 100, value) if pk is dict else (key, value)
+            return (IKEY(key) + 100, value) if pk is dict else (key, value)
         kw = {"visit": visit, "enter": enter, "exit": exit_}
         wrap = True
     else:
@@ -166,8 +176,8 @@ def match(res, expected, live):
         items = nd["items"]
         if nd["kind"] == "dict":
             pairs = list(o.items())
-            if [k for k, _ in pairs] != [i_["k"] for i_ in items]:
-                return "node %d: keys %r, expected %r" % (n, [k for k, _ in pairs], [i_["k"] for i_ in items])
+            if [IKEY(k) for k, _ in pairs] != [i_["k"] for i_ in items]:
+                return "node %d: keys %r, expected %r" % (n, [k for k, _ in pairs], [DKEY(i_["k"]) for i_ in items])
             vals = [v for _, v in pairs]
         elif nd["kind"] in ("list", "tuple"):
             vals = list(o)
@@ -240,7 +250,7 @@ def research_check(objs):
     try:
         found = it.research(objs[1], query=lambda p, k, v: True)
         for path, value in found:
-            if path == (None,):
+            if path == (None,) and value is objs[1]:
                 continue          # the root itself is not a nested item
             through_set = False
             cur = objs[1]
@@ -366,7 +376,7 @@ def records(rng, count):
                     return
                 table[nid] = None
                 its = []
-                seq = list(o.items()) if isinstance(o, dict) else list(enumerate(sorted(o) if isinstance(o, (set, frozenset)) else o))
+                seq = [(IKEY(k_), v_) for k_, v_ in o.items()] if isinstance(o, dict) else list(enumerate(sorted(o) if isinstance(o, (set, frozenset)) else o))
                 for k, v in seq:
                     if isinstance(v, (tuple, frozenset)) and len(v) == 0:
                         its.append({"k": k, "s": True, "v": -1 if isinstance(v, tuple) else -2})
